@@ -112,7 +112,14 @@ package quic
 //@   after call io.ReadFull: reads = reads + 1
 //@   after call io.ReadFull: lastErr = res1
 //@   ensures imp(result1 == nil, reads % 4 == 1 && lastErr == io.EOF)
-//@   loop 1 invariant reads % 4 == 0
+// ... and every entry it accepted had its key AND its value checked to be valid UTF-8
+//@   ghostvar lastBuf []byte = nil
+//@   ghostvar nvalid int = 0
+//@   after call io.ReadFull: lastBuf = arg1
+//@   assert call utf8.Valid$: arg0 == lastBuf   // what is validated is the key / the value that was just read
+//@   after call utf8.Valid$: nvalid = ite(res0, nvalid + 1, nvalid)
+//@   ensures imp(result1 == nil, nvalid * 2 == reads - 1)
+//@   loop 1 invariant reads % 4 == 0 && nvalid * 2 == reads
 
 // ---------------------------------------------------------------- C13 / C14 / C17: construction
 // The transport compresses exactly as the negotiated parameters say (CompressConfig, proved under
